@@ -171,6 +171,9 @@ struct Gen {
   }
   std::string qname() {
     static const std::vector<std::string> common = {"a", "b", "id", "login", "password", "q", "user", "x-y", "k1", "token"};
+    // RFC 3986: query = *( pchar / "/" / "?" ) - a key may begin with a slash (seen in redirect targets such as "?/next=1")
+    static const std::vector<std::string> slashed = {"/next", "//cdn/x", "/", "/a/b", "?x", "/?"};
+    if (pick(9) == 8) return of(slashed);
     return pick(3) ? of(common) : token(1, 6, true);
   }
   std::string qvalue() {
